@@ -126,7 +126,8 @@ def op? (s : String) : Option Op :=
 def form? : String → Option Form
   | "json" => some .json | "yaml" => some .yaml | _ => none
 
-def stream (st : S) : Stream := if st.garbled then .garbled else .docs st.docs
+/-- The stream as the (repaired) decoders deliver it: a syntax error or an unknown key = no stream. -/
+def stream (st : S) : Stream := if st.garbled then .garbled else Stream.ofRaw st.raw
 
 /-- The repaired code normalises (see `Model/Patch`). -/
 def nz : Bool := true
@@ -155,7 +156,7 @@ def step (st : S) (toks : List String) : S × String :=
   | ["doc", v, inl, o, "x"] =>      -- the document carries an unknown key
     match bool? v, bool? inl, op? o with
     | some v, some inl, some o =>
-      ({ st with docs := st.docs ++ [decodeRaw ⟨⟨v, o, inl⟩, true⟩], raw := st.raw ++ [⟨⟨v, o, inl⟩, true⟩] }, "ok")
+      ({ st with docs := st.docs ++ [⟨v, o, inl⟩], raw := st.raw ++ [⟨⟨v, o, inl⟩, true⟩] }, "ok")
     | _, _, _ => (st, "bad-op")
   | ["parse", f] =>
     match form? f with
